@@ -255,11 +255,11 @@ LAYERS = [
     Layer("ip-read-table", run_read, enumerate=enum_read, exhaustive=True,
           space="19 outcomes ^ n for n <= 3 through format_characteristic_list; 9^n for n <= 2 through get_characteristics; request-wide status x "
                 "listed subsets; 10 malformed entries x 3 positions", min_nontrivial=3000),
-    Layer("ip-read-gen", run_read, strategy=read_cases, n={"quick": 3000, "thorough": 60000}, min_nontrivial=500),
+    Layer("ip-read-gen", run_read, strategy=read_cases, n={"quick": 10000, "thorough": 100000}, min_nontrivial=500),
     Layer("ip-write-table", run_write, enumerate=enum_write, exhaustive=True,
           space="17 statuses ^ n for 1, 2 and 3 written characteristics (quick: every 4th vector for n = 3) through put_characteristics; 204/207; malformed entries",
           min_nontrivial=400),
-    Layer("ip-write-gen", run_write, strategy=write_cases, n={"quick": 1500, "thorough": 40000}, min_nontrivial=300),
+    Layer("ip-write-gen", run_write, strategy=write_cases, n={"quick": 6000, "thorough": 80000}, min_nontrivial=300),
 ]
 from props.ble_layers import C13_LAYERS as _BLE  # noqa: E402
 LAYERS += _BLE
